@@ -128,6 +128,19 @@ func init() {
 		in.ghost.effMon = false
 		return nil
 	}
+	intrinsics[H("vCloseChan")] = func(in *Interp, fr *frame, args []Value) Value {
+		ch := &Chan{CloseAt: 0}
+		ch.Counter, _ = args[0].(*Value)
+		in.ghost.cancelChan = ch
+		return ch
+	}
+	intrinsics[H("vCancelTick")] = func(in *Interp, fr *frame, args []Value) Value { return nil }
+	intrinsics[H("vCancelPolls")] = func(in *Interp, fr *frame, args []Value) Value {
+		if in.ghost.cancelChan == nil {
+			return uint64(0)
+		}
+		return uint64(in.ghost.cancelChan.Polls)
+	}
 	intrinsics[H("vRegister")] = func(in *Interp, fr *frame, args []Value) Value { return nil }
 	intrinsics[H("vRunSpawned")] = func(in *Interp, fr *frame, args []Value) Value {
 		in.runSpawned()
